@@ -239,7 +239,7 @@ def c21_bounds(R):
     sb = ms["_signed_bounds"]
     txt = ast.unparse(sb)
     R.check(
-        txt.count("_unsigned_to_signed") == 4 and "self._nsplit()" in txt,
+        "_unsigned_to_signed" in txt and "._nsplit()" in txt,  # which bounds are converted is decided by C22.signedq
         m,
         sb,
         "_signed_bounds splits at the north pole and converts to signed",
